@@ -136,3 +136,7 @@ mod tests {
         Ok(())
     }
 }
+
+#[cfg(kani)]
+#[path = "/verif/harness/bgzf/writer_frame.rs"]
+mod verif_kani;
